@@ -99,8 +99,10 @@ class Harness:
         self._run_until({self.addr['again']}, 5_000_000)
 
     def _label(self, nm: str) -> int:
+        if nm in self.labels:
+            return self.labels[nm]  # a top-level label of the harness program (macro-local labels carry a prefix)
         for k, v in self.labels.items():
-            if k == nm or k.endswith('---' + nm):
+            if k.endswith('---' + nm):
                 return v
         raise KeyError(nm)
 
@@ -178,6 +180,8 @@ class Harness:
                 mask = vw.get(a, 0)
                 if a == 0:
                     mask |= 1  # `;x` is `0;x`: bit 0 of word 0 is the language's own scratch bit
+                if a == 2 and c.output is not None:
+                    mask |= 3  # bits 2w and 2w+1: the output flips themselves (the IO op's flip word)
                 if (b0 ^ b1) & ~mask:
                     if a == in_addr_word and c.input_ is not None:
                         continue  # the machine's own input bit
